@@ -8,8 +8,8 @@ REPO = os.environ.get('VP_REPO', '/repo')
 # property -> Kani harness groups that are part of its deciding step
 KANI_FOR = {
     'C13': ['swar_kernel'],
-    'C01': ['swar_kernel'],
-    'C14': ['swar_kernel'],
+    'C01': ['swar_kernel', 'lower_kernel'],
+    'C14': ['swar_kernel', 'lower_kernel'],
     'C15': ['comb'],
 }
 
@@ -22,7 +22,7 @@ AIGER = ['aiger:aag', 'aiger:aig']
 STANDIN_FOR = {
     'C01': FMT_SUITES, 'C02': ['reader'], 'C03': [s for s in FMT_SUITES if 'satlog' not in s and 'stream' not in s] + AIGER + DIMACS, 'C04': FMT_SUITES, 'C05': FMT_SUITES,
     'C06': DIMACS + AIGER, 'C07': DIMACS + ['dimacs:satlog'], 'C08': FMT_SUITES + DIMACS + AIGER, 'C09': STREAMING + ['reader'], 'C10': ['reader', 'mem'], 'C11': ['writer'],
-    'C12': ['renumber'], 'C13': ['scan'], 'C14': ['reader', 'raw'], 'C16': ['scan'],
+    'C12': ['renumber'], 'C13': ['scan'], 'C14': ['reader', 'raw', 'fmt:btor2', 'fmt:cnf', 'fmt:gcnf', 'fmt:aag', 'fmt:aig'], 'C16': ['scan'],
 }
 SUITE_FN = {
     'fmt:btor2': ('flussab_btor2::parser::Parser::next_line / btor2::Line::write_into', 'flussab-btor2/src/parser.rs'),
